@@ -147,6 +147,27 @@ def foo(x: R[8], y: R[4]):
     CfgW.a = 0
     CfgW.flag = True
 """),
+    ("config_in_loop_bounds", """
+@config
+class CfgB:
+    a: index
+
+@proc
+def foo(n: size, x: R[16], y: R[1]):
+    assert n > 4
+    assert n <= 8
+    CfgB.a = 2
+    for i in seq(CfgB.a, CfgB.a + n):
+        CfgB.a = 3
+        if i < 5:
+            y[0] += 1.0
+    for j in seq(0, n):
+        x[j] = 2.0
+        CfgB.a = 1
+    for k in seq(0, 4):
+        x[k + CfgB.a] = 3.0
+        CfgB.a = 2
+"""),
     ("mult_dim_transposes", """
 @proc
 def foo(n: size, m: size, a: [R][n, m], b: R[n, m], c: R[4]):
